@@ -255,7 +255,9 @@ class HierDictDocument(DictDocument):
                 else:
                     retval = self.from_serstr(cls, inst)
 
-                    if isinstance(retval, float) and issubclass(cls, Integer):
+                    if isinstance(retval, float) and issubclass(
+                              getattr(cls, 'type', None) or cls, Integer):
+                        # (``cls.type`` is what an XmlAttribute wraps)
                         # json/yaml/msgpack numbers are passed through as they
                         # are. NaN, infinity and 1.5 are not integers.
                         if retval != retval or not retval.is_integer():
